@@ -18,7 +18,7 @@ ASSUMPTIONS = [
     "'the day bunds are removed' is read as: the bund height in force today (0 without bunds) is below the water ponded at the start of the day -- this includes bunds replaced by LOWER ones when the season / fallow management takes over; infiltration may then be negative by at most the water above the new height",
     "tolerance 1e-9 relative to max(1, rain + irrigation)",
 ]
-BUDGET = {"quick": 320, "thorough": 6000}
+BUDGET = {"quick": 480, "thorough": 6000}
 
 PROFILE = gen.profile(seasons=(1, 2), max_days=500, storms=(2, 10), storm_mm=(20, 300), p_bunds=0.5, p_fm=0.8, p_ffm=0.6,
                       p_off=0.7, low_ksat=True, p_custom_soil=0.5, p_soil_args=0.7, p_gw=0.15,
